@@ -895,7 +895,7 @@ func buildScalarType(src protoreflect.FieldDescriptor, ext protoFieldExtensions)
 			},
 		}, nil
 
-	case protoreflect.Sfixed64Kind, protoreflect.Fixed64Kind, protoreflect.DoubleKind:
+	case protoreflect.DoubleKind:
 		var numberRules *schema_j5pb.FloatField_Rules
 		floatConstraint := ext.validate.GetDouble()
 		if floatConstraint != nil {
